@@ -133,6 +133,9 @@ func (msg *Message) UnmarshalXML(d *xml.Decoder, start xml.StartElement) error {
 					err = d.DecodeElement(&msg.Subject, &tt)
 				case "error":
 					err = d.DecodeElement(&msg.Error, &tt)
+				default:
+					// Unknown child: skip it entirely, so that its content is not mistaken for children of the message
+					err = d.Skip()
 				}
 				if err != nil {
 					return err
